@@ -23,7 +23,7 @@ class RspHandler:
         next(self._packet_decoder)  # Bump decoder to first byte.
 
         # ACHTUNG: multithreaded code ahead:
-        self._ack_queue = Queue(maxsize=1)
+        self._ack_queue = Queue()
         self._lock = Lock()
         self.on_message = None
 
@@ -32,6 +32,9 @@ class RspHandler:
         with self._lock:
             wire_data = self.rsp_pack(data)
             self.logger.debug("--> %s", wire_data)
+            # Drop acknowledgements which nobody waited for:
+            while not self._ack_queue.empty():
+                self._ack_queue.get_nowait()
             self.send(wire_data)
             res = self._ack_queue.get(timeout=0.5)
             while res != "+":
@@ -56,7 +59,7 @@ class RspHandler:
                 self.logger.debug("<-- %s", msg)
 
             if msg in ["+", "-"]:
-                self._ack_queue.put(msg, timeout=0.5)
+                self._ack_queue.put(msg)
             else:
                 self.decodepkt(msg)
 
